@@ -625,10 +625,14 @@ class ExperimentPackage(StorageStructurePathResolver):
                     raise experiment.model.errors.PackageCreateError(
                         ValueError("Manifest entry conf (%s) places the conf folder outside of the instance "
                                    "directory" % manifest['conf']), targetPath, path)
-                if file_format == "dsl":
-                    shutil.copyfile(path, os.path.join(conf_dir, "dsl.yaml"))
-                else:
-                    shutil.copyfile(path, os.path.join(conf_dir, "flowir_package.yaml"))
+                definition = os.path.join(conf_dir, "dsl.yaml" if file_format == "dsl" else "flowir_package.yaml")
+                if os.path.commonpath([os.path.realpath(targetPath), os.path.realpath(definition)]) \
+                        != os.path.realpath(targetPath):
+                    # VV: a manifest entry may have made this very file a link to something outside of the instance
+                    raise experiment.model.errors.PackageCreateError(
+                        ValueError("The manifest places %s outside of the instance directory" % definition),
+                        targetPath, path)
+                shutil.copyfile(path, definition)
             except OSError as e:
                 raise_with_traceback(experiment.model.errors.PackageCreateError(e, targetPath, path))
 
